@@ -279,3 +279,70 @@ theorem mergeRec_fuel_adequate (merge : α → α → Option α) (n : Nat) (l : 
       rw [e]; exact ⟨nm, e⟩
 
 end Svgbob.G
+
+namespace Svgbob.G
+variable {α : Type}
+
+/-! ### invariants: a predicate that `merge` preserves holds for every result of the loop -/
+
+theorem mergeIntoRev_forall (merge : α → α → Option α) (P : α → Prop)
+    (hm : ∀ g it m, merge g it = some m → P g → P it → P m)
+    (gs : List α) (it : α) (r : List α) (hg : ∀ g ∈ gs, P g) (hi : P it)
+    (h : mergeIntoRev merge gs it = some r) : ∀ x ∈ r, P x := by
+  induction gs generalizing r with
+  | nil => simp [mergeIntoRev] at h
+  | cons g gs ih =>
+    simp only [mergeIntoRev] at h
+    split at h
+    · rename_i gs' hgs'
+      cases h
+      intro x hx
+      rcases List.mem_cons.mp hx with rfl | hx
+      · exact hg _ (by simp)
+      · exact ih gs' (fun y hy => hg y (List.mem_cons_of_mem _ hy)) hgs' x hx
+    · split at h
+      · rename_i m hmm
+        cases h
+        intro x hx
+        rcases List.mem_cons.mp hx with rfl | hx
+        · exact hm g it _ hmm (hg g (by simp)) hi
+        · exact hg x (List.mem_cons_of_mem _ hx)
+      · cases h
+
+theorem step_forall (merge : α → α → Option α) (P : α → Prop)
+    (hm : ∀ g it m, merge g it = some m → P g → P it → P m)
+    (acc : List α) (it : α) (ha : ∀ g ∈ acc, P g) (hi : P it) : ∀ x ∈ step merge acc it, P x := by
+  unfold step
+  split
+  · rename_i r h; exact mergeIntoRev_forall merge P hm acc it r ha hi h
+  · intro x hx
+    rcases List.mem_append.mp hx with hx | hx
+    · exact ha x hx
+    · simp at hx; subst hx; exact hi
+
+theorem pass_forall (merge : α → α → Option α) (P : α → Prop)
+    (hm : ∀ g it m, merge g it = some m → P g → P it → P m)
+    (items : List α) (h : ∀ x ∈ items, P x) : ∀ x ∈ pass merge items, P x := by
+  unfold pass
+  suffices hs : ∀ acc, (∀ g ∈ acc, P g) → ∀ x ∈ items.foldl (step merge) acc, P x from
+    hs [] (by simp)
+  induction items with
+  | nil => intro acc ha; simpa using ha
+  | cons y ys ih =>
+    intro acc ha
+    simp only [List.foldl_cons]
+    exact ih (fun x hx => h x (List.mem_cons_of_mem _ hx)) _
+      (step_forall merge P hm acc y ha (h y (by simp)))
+
+theorem mergeRec_forall (merge : α → α → Option α) (P : α → Prop)
+    (hm : ∀ g it m, merge g it = some m → P g → P it → P m)
+    (n : Nat) (items : List α) (h : ∀ x ∈ items, P x) : ∀ x ∈ mergeRec merge n items, P x := by
+  induction n generalizing items with
+  | zero => simpa [mergeRec] using h
+  | succ n ih =>
+    simp only [mergeRec]
+    split
+    · exact ih _ (pass_forall merge P hm items h)
+    · exact pass_forall merge P hm items h
+
+end Svgbob.G
